@@ -51,54 +51,78 @@ def ensure_driver():
 
 
 def build(config="default", repo=None, verbose=False):
-    """Returns (dir with fact json files, info dict)."""
+    """Returns (dir with fact json files, info dict).  Safe against concurrent invocations: the build of one
+    (config, target dir) is serialised by a file lock, facts are written to a private directory and renamed into
+    place, and only fact directories that have not been touched for an hour are evicted."""
+    import fcntl
     repo = repo or REPO
-    ensure_driver()
+    os.makedirs(CACHE, exist_ok=True)
+    with open(os.path.join(CACHE, "driver.lock"), "w") as dl:
+        fcntl.flock(dl, fcntl.LOCK_EX)
+        ensure_driver()
     key, nfiles = tree_hash(repo)
     out = os.path.join(CACHE, "facts", f"{key}-{config}")
     stamp = os.path.join(out, "OK")
     info = {"tree_hash": key, "source_files_hashed": nfiles, "config": config, "cache_hit": True}
     if os.path.exists(stamp):
+        try:
+            os.utime(out, None)
+        except OSError:
+            pass
         return out, info
-    info["cache_hit"] = False
-    if os.path.exists(out):
-        shutil.rmtree(out)
-    os.makedirs(out)
-    # persistent target dir for dependencies; members' fingerprints are removed so
-    # the wrapper is really invoked on them (cargo would otherwise replay).
-    tdir = os.path.join(CACHE, "target-" + config + os.environ.get("VERIF_TARGET_TAG", ""))
-    fp = os.path.join(tdir, "debug", ".fingerprint")
-    if os.path.isdir(fp):
-        for d in os.listdir(fp):
-            if any(d.startswith(m + "-") for m in MEMBERS):
-                shutil.rmtree(os.path.join(fp, d))
-    env = dict(os.environ)
-    env["LD_LIBRARY_PATH"] = _sysroot() + "/lib"
-    env["RUSTFLAGS"] = "-Zmir-opt-level=0 -Awarnings"
-    env["RUSTC_WORKSPACE_WRAPPER"] = DRIVER
-    env["CARGO_TARGET_DIR"] = tdir
-    env["FACTGEN_OUT"] = out
-    env["CARGO_NET_OFFLINE"] = "true"
-    t = time.time()
-    cmd = ["cargo", "+nightly", "check", "--offline"] + CONFIGS[config]
-    p = subprocess.run(cmd, cwd=repo, env=env, stdout=subprocess.PIPE, stderr=subprocess.STDOUT, text=True)
-    info["cargo_check_s"] = round(time.time() - t, 1)
-    if p.returncode != 0:
-        sys.stderr.write(p.stdout[-6000:])
-        raise SystemExit("factbase: cargo check failed on the working tree (the tree must compile)")
-    need = ["riscv_analysis.lib.json", "riscv_analysis_cli.lib.json", "rva.bin.json"]
-    if config == "allfeat":
-        need.append("riscv_analysis_lsp.lib.json")
-    for n in need:
-        if not os.path.exists(os.path.join(out, n)):
-            sys.stderr.write(p.stdout[-3000:])
-            raise SystemExit(f"factbase: fact file {n} was not written (driver skipped?)")
-    open(stamp, "w").write(str(time.time()))
-    # keep the cache small: drop older fact dirs
-    fdir = os.path.join(CACHE, "facts")
-    ents = sorted((os.path.getmtime(os.path.join(fdir, e)), e) for e in os.listdir(fdir))
-    for _, e in ents[:-6]:
-        shutil.rmtree(os.path.join(fdir, e), ignore_errors=True)
+    tag = os.environ.get("VERIF_TARGET_TAG", "")
+    os.makedirs(os.path.join(CACHE, "facts"), exist_ok=True)
+    with open(os.path.join(CACHE, f"build-{config}{tag}.lock"), "w") as lk:
+        fcntl.flock(lk, fcntl.LOCK_EX)
+        if os.path.exists(stamp):      # another process built it while we waited
+            return out, info
+        info["cache_hit"] = False
+        tmp = f"{out}.tmp-{os.getpid()}"
+        if os.path.exists(tmp):
+            shutil.rmtree(tmp)
+        os.makedirs(tmp)
+        # persistent target dir for dependencies; members' fingerprints are removed so
+        # the wrapper is really invoked on them (cargo would otherwise replay).
+        tdir = os.path.join(CACHE, "target-" + config + tag)
+        fp = os.path.join(tdir, "debug", ".fingerprint")
+        if os.path.isdir(fp):
+            for d in os.listdir(fp):
+                if any(d.startswith(m + "-") for m in MEMBERS):
+                    shutil.rmtree(os.path.join(fp, d), ignore_errors=True)
+        env = dict(os.environ)
+        env["LD_LIBRARY_PATH"] = _sysroot() + "/lib"
+        env["RUSTFLAGS"] = "-Zmir-opt-level=0 -Awarnings"
+        env["RUSTC_WORKSPACE_WRAPPER"] = DRIVER
+        env["CARGO_TARGET_DIR"] = tdir
+        env["FACTGEN_OUT"] = tmp
+        env["CARGO_NET_OFFLINE"] = "true"
+        t = time.time()
+        cmd = ["cargo", "+nightly", "check", "--offline"] + CONFIGS[config]
+        p = subprocess.run(cmd, cwd=repo, env=env, stdout=subprocess.PIPE, stderr=subprocess.STDOUT, text=True)
+        info["cargo_check_s"] = round(time.time() - t, 1)
+        if p.returncode != 0:
+            sys.stderr.write(p.stdout[-6000:])
+            shutil.rmtree(tmp, ignore_errors=True)
+            raise SystemExit("factbase: cargo check failed on the working tree (the tree must compile)")
+        need = ["riscv_analysis.lib.json", "riscv_analysis_cli.lib.json", "rva.bin.json"]
+        if config == "allfeat":
+            need.append("riscv_analysis_lsp.lib.json")
+        for n in need:
+            if not os.path.exists(os.path.join(tmp, n)):
+                sys.stderr.write(p.stdout[-3000:])
+                shutil.rmtree(tmp, ignore_errors=True)
+                raise SystemExit(f"factbase: fact file {n} was not written (driver skipped?)")
+        open(os.path.join(tmp, "OK"), "w").write(str(time.time()))
+        if os.path.exists(out):
+            shutil.rmtree(out, ignore_errors=True)
+        os.rename(tmp, out)
+        # keep the cache small: drop fact dirs that nobody has used for an hour (beyond the 8 most recent)
+        fdir = os.path.join(CACHE, "facts")
+        now = time.time()
+        ents = sorted((os.path.getmtime(os.path.join(fdir, e)), e) for e in os.listdir(fdir))
+        for mt, e in ents[:-8]:
+            if now - mt > 3600:
+                shutil.rmtree(os.path.join(fdir, e), ignore_errors=True)
     return out, info
 
 
